@@ -124,6 +124,7 @@ func checkDec(c *fw.Ctx, n *big.Int, dec int64) {
 func pow(b, e int64) *big.Int { return new(big.Int).Exp(big.NewInt(b), big.NewInt(e), nil) }
 
 func run(c *fw.Ctx) {
+	c.ConcPart() // schedule companion (checks/c18/conc)
 	var idx int64
 	mine := func() bool { idx++; return c.Mine(idx) }
 	nontriv := int64(0)
